@@ -27,11 +27,31 @@ fn func(params: &[&str], cards: Vec<cao_lang::compiler::Card>) -> Function {
     Function { arguments: params.iter().map(|s| s.to_string()).collect(), cards }
 }
 
-fn nonterminating(rng: &mut Prng) -> (Module, &'static str) {
+pub fn nonterminating(rng: &mut Prng) -> (Module, &'static str) {
     let mut m = Module::default();
     let mut main = vec![set("_", nil())];
     let name: &'static str;
-    match rng.below(7) {
+    match rng.below(9) {
+        7 | 8 => {
+            name = "loop:native-value-called-dynamically";
+            // the host function is reached through a native function *value* (CallFunction, not CallNative) and
+            // re-enters the script; each callback is short, their sum is not
+            let n = rng.range(20, 120);
+            let inner = rng.range(3, 30);
+            m.functions.push(("work".into(), func(&["d"], vec![set("_", nil()), repeat(int(inner), None, comp(vec![set("_", read("d"))])), un("ret", read("d"))])));
+            let nat: cao_lang::compiler::Card = CardBody::NativeFunction("apply1".into()).into();
+            let callc = if rng.chance(1, 2) {
+                dyncall(nat, vec![CardBody::Function("work".into()).into(), read("i")])
+            } else {
+                // the native value travels through a variable first
+                main.push(set("nf", nat));
+                dyncall(read("nf"), vec![CardBody::Function("work".into()).into(), read("i")])
+            };
+            main.push(repeat(int(n), Some("i"), comp(vec![set("_", callc)])));
+            if rng.chance(1, 2) {
+                main.push(bin("while", int(1), comp(vec![])));
+            }
+        }
         0 => {
             name = "loop:while-true";
             main.push(set("n", int(0)));
@@ -117,6 +137,13 @@ impl Engine for BudgetEngine {
     type Case = Case;
     fn name(&self) -> &'static str {
         "budget"
+    }
+    fn describe(&self, case: &Self::Case) -> serde_json::Value {
+        let mut v = serde_json::to_value(case).unwrap_or(serde_json::Value::Null);
+        if let Some(o) = v.as_object_mut() {
+            o.insert("module".into(), serde_json::Value::String(crate::pp::module(&case.module, "")));
+        }
+        v
     }
     fn gen(&mut self, rng: &mut Prng, _tier: Tier) -> Case {
         let inputs = crate::e_prog::gen_inputs(rng);
